@@ -105,7 +105,7 @@ def table():
                 raise UserError(x[1])
             return x[1]
         op = ops.do_while if do else ops.while_do
-        return dict(build=lambda env, ss: ss[0].pipe(op(cond)),
+        return dict(build=lambda env, ss: ss[0].pipe(op(cond)), reset=lambda: calls.__setitem__(0, 0),
                     coq=f"{'x_do_while' if do else 'x_while_do'} {g_counted(ent, ('ok', False))}", n_static=1,
                     spec=("do_while" if do else "while_do", ent), **ZT)
     T["while_do"] = lambda rng: g_while(rng, False)
@@ -129,8 +129,8 @@ def table():
     def g_flat_map(rng, which="flat_map"):
         ent = counted_table(rng, 8, 0.15, kind="unit")
         mc = rng.choice([1, 2]) if which == "merge_mc" else None
+        calls = [0]
         def build(env, ss):
-            calls = [0]
             def mapper(x, i=None):
                 j = calls[0]
                 calls[0] += 1
@@ -166,7 +166,8 @@ def table():
             coq = f"x_merge_concurrent {mc}%nat {m}"
         else:
             coq = f"x_switch_map {m}"
-        return dict(build=build, coq=coq, n_static=1, spec=(which, ent, mc), dynamic=True, **ZT)
+        return dict(build=build, coq=coq, n_static=1, spec=(which, ent, mc), dynamic=True,
+                    reset=lambda: calls.__setitem__(0, 0), **ZT)
     for w in ("flat_map", "flat_map_indexed", "merge_all", "concat_map", "merge_mc",
               "switch_map", "switch_map_indexed", "flat_map_latest", "switch_latest"):
         T[w] = (lambda w: (lambda rng: g_flat_map(rng, w)))(w)
@@ -239,7 +240,12 @@ def run_ops(chk, pid, names, oracle, ncase=None, extra_sources=3, p_dispose=0.15
             if chk.rng.random() < p_dispose and evs:
                 disp = chk.rng.choice(evs)[0]
                 hist["with_dispose"] += 1
-            res = k2m.run_multi(inst["build"], inst["n_static"], evs, dispose_at=disp)
+            warm = None
+            if chk.rng.random() < 0.35:
+                warm = k2m.gen_events(chk.rng, nsrc, maxlen=3, p_none=0.5)
+                hist["resubscribed"] = hist.get("resubscribed", 0) + 1
+            res = k2m.run_multi(inst["build"], inst["n_static"], evs, dispose_at=disp, warmup=warm,
+                                after_warmup=inst.get("reset"))
             chk.cov["evaluations"] += 1
             per_op[name] = per_op.get(name, 0) + 1
             if res["build_error"] is not None:
